@@ -5,6 +5,7 @@ import (
 	"runtime/debug"
 	"strings"
 	"testing"
+	"time"
 
 	"verif/evid"
 	"verif/kit"
@@ -167,6 +168,9 @@ func TestC05Container(t *testing.T) {
 			if a := x.W.Anomalies(); f == nil && len(a) > 0 {
 				f = fail("C05", "terminates", "not-part-of-the-validated-graph", "%s", a[0])
 			}
+			if f == nil {
+				f = x.failThenRetry(rt)
+			}
 			x.R.CloseProvider()
 		}
 		if f != nil {
@@ -177,6 +181,47 @@ func TestC05Container(t *testing.T) {
 			rt.Fatalf("VIOLATION %s\nconfig: %s\nplanted: %v", f, canon, planted)
 		}
 	})
+}
+
+// failThenRetry: termination is promised for every resolution on the built provider, the
+// one after a failure too. In a fresh scope the next construction of some scoped or
+// transient service is made to fail; the identities it provides are then resolved twice
+// more (the second time from another goroutine), each call bounded by 10 s.
+func (x *run) failThenRetry(rt *rapid.T) *Failure {
+	var cands []*kit.Reg
+	for _, id := range x.M.Order {
+		if r := x.M.Regs[id]; r.Life != kit.Singleton && r.Form != kit.FormInstance && r.Form != kit.FormVoid && len(r.Provides()) > 0 {
+			cands = append(cands, r)
+		}
+	}
+	if len(cands) == 0 {
+		return nil
+	}
+	r := rapid.SampledFrom(cands).Draw(rt, "failingReg")
+	rec, co := x.R.CreateScope(0, 1)
+	if co.Err != nil || !rec.Created {
+		return nil
+	}
+	x.W.SetFaultNext(r.ID, faultFor(r, rapid.IntRange(0, 2).Draw(rt, "failKind")))
+	for attempt := 0; attempt < 3; attempt++ {
+		for _, p := range r.Provides() {
+			id := p.Ident
+			done := make(chan struct{})
+			go func() {
+				defer close(done)
+				x.R.Resolve(rec.Tag, id)
+			}()
+			if !kit.WaitOrTimeout(done, 10*time.Second) {
+				return fail("C05", "terminates", "after-failure", "get(s%d,%s) has not returned after 10 s; an earlier construction of r%d in that scope had been made to fail (attempt %d)", rec.Tag, id, r.ID, attempt)
+			}
+		}
+	}
+	for _, o := range x.R.Obs {
+		if o.Panic != nil {
+			return fail("C05", "terminates", "panic", "%s(s%d,%s) panicked: %v", o.Kind, o.Scope, o.Ident, o.Panic)
+		}
+	}
+	return nil
 }
 
 func keysOf(m map[int]bool) []int {
